@@ -407,7 +407,7 @@ def _run_c(case):
     for t in ths:
       t.join()
     return True
-  box, s = sched.run(sched.random_chooser(common.Rng('c11/%s' % case['rseed']), case.get('switch', 0.4)), body,
+  box, s = sched.run(sched.chooser_for(case, 'c11'), body,
                      max_steps=200000)
   facts = list(env.facts)
   if s.deadlock or 'sched_error' in box:
